@@ -93,6 +93,14 @@ DSYMChecks(o) ==
     [] o.rel = "args" ->         \* angle-class arguments = their decimal-degree values
          << <<"c04_angle_classes", o.a.hex = o.b.hex>> >>
 
+\* Clairaut: along a geodesic sin(azimuth) * cos(reduced latitude) is constant.  sa / cb = sine of the azimuth and cosine
+\* of the reduced latitude at each end (elementary auxiliaries of the call's inputs and outputs, from alpha); the constant
+\* may change by at most d(azimuth) + d(latitude) = 1e-8 deg (+ output rounding) + 1 mm / 6.3e6 m
+ClairautTol == Add(DegToRad(Add(Az1e8, Az1e9)), Dec(1700, 3))
+DCLChecks(o) ==
+  << <<"c04_clairaut_constant", Gt(Abs(J(o.lat2)), FromInt(89)) \/
+                                Within(Mul(J(o.sa1), J(o.cb1)), Mul(J(o.sa2), J(o.cb2)), ClairautTol)>> >>
+
 (* ------------------------------- C05 ----------------------------------- *)
 \* an azimuth change d (deg) moves the far end of a line by at least |d| (rad) * 0.99 * 6.3e6 * sin(sigma) metres;
 \* (division by a variable quantity is avoided: the clause is cross-multiplied instead)
@@ -106,6 +114,12 @@ ISHIFTChecks(o) ==
   << <<"c05_shift_distance", Within(J(o.ab.s), J(o.sh.s), Mm1)>>,
      <<"c05_shift_azimuth_12", AzMovesLessThan(Sub(Abs(AzDiff(J(o.ab.a12), J(o.sh.a12))), MulSmall(Az1e9, 2)), J(o.sinsig), Mm1)>>,
      <<"c05_shift_azimuth_21", AzMovesLessThan(Sub(Abs(AzDiff(J(o.ab.a21), J(o.sh.a21))), MulSmall(Az1e9, 2)), J(o.sinsig), Mm1)>> >>
+\* Clairaut for the inverse solution: the two returned azimuths belong to ONE geodesic; a difference d of the constant
+\* corresponds to an azimuth error of at least d radians, which must not move the far end by more than 2 x 1 mm
+ICLChecks(o) ==
+  << <<"c05_clairaut_constant",
+       Leq(Mul(Mul(Sub(Abs(Sub(Mul(J(o.sa1), J(o.cb1)), Mul(J(o.sa2), J(o.cb2)))), DegToRad(MulSmall(Az1e9, 2))), FromInt(6237000)),
+               J(o.sinsig)), Mm2)>> >>
 ICOINChecks(o) == << <<"c05_coincident", IsZero(J(o.out.s))>> >>
 IMERChecks(o) ==
   IF ~OracleOK(o.ell) THEN << <<"oracle_start_value", FALSE>> >> ELSE
@@ -137,11 +151,12 @@ Checks(ev) == CASE ev.k = "DMER" -> DMERChecks(ev.o) [] ev.k = "DEQ" -> DEQCheck
                 [] ev.k = "DREV" -> DREVChecks(ev.o) [] ev.k = "DSYM" -> DSYMChecks(ev.o) [] ev.k = "ISWAP" -> ISWAPChecks(ev.o)
                 [] ev.k = "ISHIFT" -> ISHIFTChecks(ev.o) [] ev.k = "ICOIN" -> ICOINChecks(ev.o) [] ev.k = "IMER" -> IMERChecks(ev.o)
                 [] ev.k = "IEQ" -> IEQChecks(ev.o) [] ev.k = "ICLOSE" -> ICLOSEChecks(ev.o)
+                [] ev.k = "DCL" -> DCLChecks(ev.o) [] ev.k = "ICL" -> ICLChecks(ev.o)
 
 RECURSIVE ReportAll(_, _)
 ReportAll(cs, i) == IF i > Len(cs) THEN TRUE ELSE (IF cs[i][2] THEN TRUE ELSE Report(cs[i][1])) /\ ReportAll(cs, i + 1)
 
-IsDirect(k) == k \in {"DMER", "DEQ", "DFLOW", "DREV", "DSYM"}
+IsDirect(k) == k \in {"DMER", "DEQ", "DFLOW", "DREV", "DSYM", "DCL"}
 TraceInit == /\ tid \in 1..Len(Traces) /\ l = 1 /\ dead = FALSE
              /\ kind = (IF IsDirect(Traces[tid].ev[1].k) THEN "direct" ELSE "inverse")
              /\ case = Traces[tid].ev[1].tag /\ legs = 0
